@@ -88,8 +88,9 @@ def run(chk, replay=None):
     try:
         inp = Inputs(rng, wd, 6 if chk.tier == 'quick' else 12)
         # steps: (kind, input index)
-        def step_cmds(kind, i, slots, mslot):
-            """commands of one step using the service instances in `slots`; returns (commands, model op symbols, index of the observed line)"""
+        def step_cmds(kind, i, slots, mslot, shared=None):
+            """commands of one step using the service instances in `slots`; returns (commands, model op symbols, index of the observed line).
+            `shared`: input index -> model slot already holding the parsed input in this history (the model OBJECT is reused)"""
             if kind in ('parse', 'parsep'):
                 d = inp.docs[i]
                 p = slots['parserp' if kind == 'parsep' else 'parser']
@@ -99,22 +100,35 @@ def run(chk, replay=None):
                 w = inp.worlds[i]
                 return ['parse %d %d %s/origin.cellml' % (slots['parser'], mslot, w), 'clearlib %d' % slots['importer'], 'resolve %d %d %s/' % (slots['importer'], mslot, w),
                         'flatten %d %d %d' % (slots['importer'], mslot, mslot + 1)], ['p1', 'a1', 'o'], 3
-            pre = ['parse %d %d %s' % (slots['parserp' if d['permissive'] else 'parser'], mslot, d['file'])]
-            sym = ['p1' if d['math'] else 'p0']
+            if shared is not None and i in shared:
+                pre, sym, mslot = [], [], shared[i]
+            else:
+                pre = ['parse %d %d %s' % (slots['parserp' if d['permissive'] else 'parser'], mslot, d['file'])]
+                sym = ['p1' if d['math'] else 'p0']
+                if shared is not None:
+                    shared[i] = mslot
+            n0 = len(pre)
             if kind == 'print':
-                return pre + ['print %d %d' % (slots['printer'], mslot)], sym + ['pr'], 1
+                return pre + ['print %d %d' % (slots['printer'], mslot)], sym + ['pr'], n0
             if kind == 'validate':
-                return pre + ['validate %d %d' % (slots['validator'], mslot)], sym + ['o'], 1
+                return pre + ['validate %d %d' % (slots['validator'], mslot)], sym + ['o'], n0
             if kind == 'analyse':
-                return pre + ['analyse %d %d' % (slots['analyser'], mslot)], sym + ['a1' if d['math'] else 'a0'], 1
+                return pre + ['analyse %d %d' % (slots['analyser'], mslot)], sym + ['a1' if d['math'] else 'a0'], n0
             if kind == 'generate':
-                return pre + ['analyse %d %d' % (slots['analyser'], mslot), 'generate %d %d %s' % (slots['generator'], slots['analyser'], 'C')], sym + ['a1' if d['math'] else 'a0', 'o'], 2
+                return pre + ['analyse %d %d' % (slots['analyser'], mslot), 'generate %d %d %s' % (slots['generator'], slots['analyser'], 'C')], sym + ['a1' if d['math'] else 'a0', 'o'], n0 + 1
+            if kind == 'generatex':
+                cv = ('nosuch', 'nosuch')
+                for cm in re.finditer(r'<component name="(\w+)">(.*?)</component>', d['text'], re.S):
+                    st = re.search(r'<diff/><bvar><ci>\w+</ci></bvar><ci>(\w+)</ci>', cm.group(2)) or re.search(r'<variable name="(\w+)"[^>]*initial_value', cm.group(2))
+                    if st:
+                        cv = (cm.group(1), st.group(1)); break
+                return pre + ['analysex %d %d %s %s' % (slots['analyser'], mslot, cv[0], cv[1]), 'generate %d %d %s' % (slots['generator'], slots['analyser'], 'C')], sym + ['a1' if d['math'] else 'a0', 'o'], n0 + 1
             raise ValueError(kind)
         def random_step():
-            kind = rng.choice(['parse', 'parse', 'parsep', 'print', 'print', 'validate', 'validate', 'analyse', 'analyse', 'generate', 'flatten'])
+            kind = rng.choice(['parse', 'parse', 'parsep', 'print', 'print', 'validate', 'validate', 'analyse', 'analyse', 'generate', 'generate', 'generatex', 'generatex', 'flatten'])
             if kind == 'flatten':
                 return kind, rng.randrange(len(inp.worlds))
-            pool = [k for k, d in enumerate(inp.docs) if (kind != 'parse' or not d['permissive']) and (kind not in ('analyse', 'generate') or d['kind'] in ('system', 'doc', 'invalid'))]
+            pool = [k for k, d in enumerate(inp.docs) if (kind != 'parse' or not d['permissive']) and (kind not in ('analyse', 'generate', 'generatex') or d['kind'] in ('system', 'doc', 'invalid')) and (kind != 'generatex' or d['kind'] == 'system')]
             return kind, rng.choice(pool)
         news = lambda base: ['new %s %d' % (s, base) for s in SERVICES]
         ref_cache = {}
@@ -138,9 +152,24 @@ def run(chk, replay=None):
             syms, observed = [], []       # observed: (line index, reference or None, description, wsmath)
             mslot = 10
             prefix = [random_step() for _ in range(rng.randint(2, 8))]
+            if target[0] not in ('parse', 'parsep', 'flatten'):
+                # other services on the very input of the target, so that the same model object is met again
+                for kk in rng.sample(['print', 'validate', 'analyse', 'generate', 'generatex'], 2):
+                    if kk != 'generatex' or inp.docs[target[1]]['kind'] == 'system':
+                        prefix.insert(rng.randrange(len(prefix) + 1), (kk, target[1]))
             plan = [(s, 0) for s in prefix] + [(target, 0), (target, 0), (target, 1)]
+            shared = {} if rng.random() < 0.7 else None
+            if trial % 4 == 0:
+                # the same model object analysed under two configurations and generated with one generator
+                systems = [k for k, d in enumerate(inp.docs) if d['kind'] == 'system']
+                i0 = rng.choice(systems)
+                first, second = rng.choice([('generate', 'generatex'), ('generatex', 'generate')])
+                target = (second, i0)
+                prefix = [random_step() for _ in range(rng.randint(0, 3))] + [(first, i0)] + [random_step() for _ in range(rng.randint(0, 2))]
+                plan = [(s_, 0) for s_ in prefix] + [(target, 0), (target, 0), (target, 1)]
+                shared = {}
             for (kind, i), inst in plan:
-                c, sy, k = step_cmds(kind, i, {s: inst for s in SERVICES}, mslot)
+                c, sy, k = step_cmds(kind, i, {s: inst for s in SERVICES}, mslot, shared if kind not in ('parse', 'parsep', 'flatten') else None)
                 base = len(cmds)
                 cmds += c; syms += sy; mslot += 2
                 observed.append((base + k, reference(kind, i), '%s of input %d with %s instances' % (kind, i, 'fresh' if inst else 'reused'), (kind, i)))
@@ -191,7 +220,7 @@ def run(chk, replay=None):
     finally:
         shutil.rmtree(wd, ignore_errors=True)
     chk.cov.update(evaluations=stats['calls_compared'] + stats['blank_bits_compared'], distinct_nontrivial=stats['histories'],
-                   rule='histories of 2-8 random service calls (strict / permissive parse, print, validate, analyse, generate C, resolve + flatten) on generated documents (general CellML 2.0 documents, analysable systems with and without white space in their MathML, '
+                   rule='histories of 2-10 random service calls (strict / permissive parse, print, validate, analyse, generate C, analyse with an external variable + generate C, resolve + flatten; in most histories the services meet the same model object again) on generated documents (general CellML 2.0 documents, analysable systems with and without white space in their MathML, '
                         'invalid variants, CellML 1.x rewritings, import worlds) with long-lived service instances, followed by a target call with the reused instances, the same call again, and the same call with fresh instances: each compared with the call in a fresh process; '
                         'every non-mutating service must leave the dump of its argument (and of the importer library) unchanged',
                    samples=[hist_lines[0][0] if hist_lines else '', model[0] if model else ''], traces_validated_against_impl=stats['blank_bits_compared'], exhaustive=False, outcome_histogram=dict(stats))
